@@ -450,9 +450,13 @@ def r6(ctx) -> None:
     c11.history_pair(ctx, "C15-R6")
 
 
+def r1_options(ctx) -> None:
+    lib.check_option_forwarding(ctx, "C15-R1", ("raise_exception", "verbose"), 2, prefixes=("glotaran/optimization/", "glotaran/project/"))
+
+
 def check(ctx) -> None:
     for g in check.groups:
         g(ctx)
 
 
-check.groups = [r1_r2, r1_escape, r2_tee, r3, r4, r5, r5_records, r6]
+check.groups = [r1_r2, r1_escape, r2_tee, r3, r4, r5, r5_records, r6, r1_options]
